@@ -13,7 +13,9 @@
 #ifdef VNATIVE
 #define C14_SAME(p, base, n) ((const unsigned char *)(p) >= (const unsigned char *)(base) && (const unsigned char *)(p) <= (const unsigned char *)(base) + (n))
 #define C14_ROK(p, n) 1
+#define C14_IS_CR(d) ((d)[0] == '\r')
 #else
+#define C14_IS_CR(d) 1      /* not the chunk, not a stored piece, readable, one byte: natively the byte is compared too */
 #define C14_SAME(p, base, n) __CPROVER_same_object((p), (base))
 #define C14_ROK(p, n) __CPROVER_r_ok((p), (n))
 #endif
@@ -40,9 +42,12 @@ typedef struct {
     int bcount;
 } vin_t;
 
-static bstr *g14_piece[PMAX];          /* the pieces stored at entry */
+/* Copies of the inputs for the stubs, as plain arrays: the stubs never dereference a pointer (every dereference in an
+ * assertion costs CBMC a fresh failure symbol, found by a linear name search: quadratic symex time). */
+static const unsigned char *g14_pdata[PMAX];   /* payload address of the pieces stored at entry */
 static size_t g14_plen[PMAX];
-static const unsigned char *g14_bnd;   /* the delimiter string the parser was given */
+static unsigned char g14_c[N];                  /* == the chunk */
+static unsigned char g14_b[BL];                 /* == the delimiter string the parser was given */
 
 /* ---- the set-aside store (parser->boundary_pieces): MODEL of the string builder.  htp_multipart.c is compiled with
  *      bstr_builder_append_mem/_size/_clear and htp_list_array_size/_get renamed to the c14_* functions below
@@ -114,18 +119,18 @@ static int c14_handle_data(htp_mpartp_t *p, const unsigned char *d, size_t len, 
         VASSERT(off <= N && len <= N - off, "handle_data range lies inside the chunk");
         VASSERT(off >= g14_hi, "chunk bytes are handed out in order and at most once");
         VASSERT(off == g14_hi || g14_gap_ok, "no chunk byte is skipped (except a delimiter line)");
-        if (off > g14_hi) VASSERT(g14_chunk[off - 1] == '\n', "data resumes right after the line feed that ends the delimiter line");
+        if (off > g14_hi) VASSERT(g14_c[off - 1] == '\n', "data resumes right after the line feed that ends the delimiter line");
         VASSERT(g14_pi == g14_np0 || g14_pc == 0 || g14_nb > 0, "stored pieces are replayed before newer chunk bytes");
         g14_hi = off + len; g14_gap_ok = 0; g14_started = 1;
-    } else if (g14_pi < g14_np0 && C14_SAME(d, bstr_ptr(g14_piece[g14_pi]), g14_plen[g14_pi])) {
-        size_t off = (size_t) (d - bstr_ptr(g14_piece[g14_pi]));
+    } else if (g14_pi < g14_np0 && C14_SAME(d, g14_pdata[g14_pi < PMAX ? g14_pi : 0], g14_plen[g14_pi < PMAX ? g14_pi : 0])) {
+        size_t off = (size_t) (d - g14_pdata[g14_pi]);
         VASSERT(off == g14_po, "stored pieces are replayed contiguously, in order");
         VASSERT(len <= g14_plen[g14_pi] - g14_po, "handle_data range lies inside the stored piece");
         VASSERT(!g14_started, "stored pieces are replayed before any byte of the chunk");
         g14_pc += len; g14_po += len;
         if (g14_po == g14_plen[g14_pi]) { g14_pi++; g14_po = 0; }
     } else {
-        VASSERT(len == 1 && d[0] == '\r' && !is_line, "any other range is the one-byte CR literal");
+        VASSERT(len == 1 && C14_IS_CR(d) && !is_line, "any other range is the one-byte CR literal");
         VASSERT(g14_cr0 == 1 && g14_crn == 0, "the CR literal is handed out only for a CR that was set aside, once");
         VASSERT(!g14_started && g14_pc == 0, "the set-aside CR precedes the stored pieces and the chunk");
         g14_crn++;
@@ -145,12 +150,12 @@ static int c14_handle_boundary(htp_mpartp_t *p) {
          * line end (CRLF or LF), then "--" boundary, byte for byte */
         size_t q = g14_hi;
         VASSERT(!g14_gap_ok, "two delimiters are separated by the end of the first one's line");
-        if (q + 1 < N && g14_chunk[q] == '\r' && g14_chunk[q + 1] == '\n') q += 2;
-        else if (q < N && g14_chunk[q] == '\n') q += 1;
+        if (q + 1 < N && g14_c[q] == '\r' && g14_c[q + 1] == '\n') q += 2;
+        else if (q < N && g14_c[q] == '\n') q += 1;
         else VASSERT(0, "a delimiter inside the chunk is introduced by a line end");
         VASSERT(q <= N && BL - 2 <= N - q, "the delimiter lies inside the chunk");
         for (size_t j = 0; j + 2 < BL; j++)
-            if (q + j < N) VASSERT(g14_chunk[q + j] == g14_bnd[2 + j], "the bytes classified as delimiter are the delimiter");
+            if (q + j < N) VASSERT(g14_c[q + j] == g14_b[2 + j], "the bytes classified as delimiter are the delimiter");
         end = q + (BL - 2);
     }
     g14_hi = end; g14_gap_ok = 1; g14_started = 1; g14_nb++;
@@ -176,7 +181,7 @@ static void c14_check_pieces(htp_mpartp_t *p) {
         if (i == 0 && p->boundary_candidate_pos >= 1 && l >= p->boundary_candidate_pos)
             VASSERT(ptr[p->boundary_candidate_pos - 1] == '\n', "WF': the candidate follows a line feed");
         for (size_t j = 0; j < PLMAX; j++) if (j < l && (i > 0 || j >= p->boundary_candidate_pos)) {
-            VASSERT(2 + t < BL && ptr[j] == g14_bnd[(2 + t) < BL ? 2 + t : 0], "WF': the stored bytes after the candidate position are the matched delimiter prefix");
+            VASSERT(2 + t < BL && ptr[j] == g14_b[(2 + t) < BL ? 2 + t : 0], "WF': the stored bytes after the candidate position are the matched delimiter prefix");
             t++;
         }
         sum += l;
@@ -239,10 +244,10 @@ static void c14_parse_harness(vin_t in) {
         bstr *b = c14_piece_alloc(in.pb[i], in.pl[i], PLEN);
         VASSUME(b != NULL);
         c14_slot[i] = b; c14_nslots = i + 1;
-        g14_piece[i] = b; g14_plen[i] = in.pl[i];
+        g14_pdata[i] = (const unsigned char *) b + sizeof (bstr); g14_plen[i] = in.pl[i];
     }
     /* ---------- ghost log ---------- */
-    g14_chunk = chunk; g14_bnd = (const unsigned char *) bnd;
+    g14_chunk = chunk; memcpy(g14_c, in.chunk, N); memcpy(g14_b, in.bnd, BL);
     g14_hi = 0; g14_nb = 0; g14_nd = 0; g14_crn = 0; g14_pc = 0; g14_pi = 0; g14_po = 0; g14_started = 0; g14_app_n = 0;
     g14_gap_ok = (in.state >= STATE_BOUNDARY_IS_LAST1);
     g14_bmp0 = in.bmp; g14_cr0 = (int) in.cr; g14_np0 = in.np; g14_modeseq = in.modeseq; g14_calls = 0;
@@ -269,7 +274,7 @@ static void c14_parse_harness(vin_t in) {
     /* ---------- byte conservation for the chunk ---------- */
     VASSERT(g14_hi <= N, "accounted chunk bytes <= chunk length");
     if (p->parser_state == STATE_DATA)
-        VASSERT(g14_hi + (size_t) p->cr_aside == N || (g14_gap_ok && p->cr_aside == 0 && chunk[N - 1] == '\n'),
+        VASSERT(g14_hi + (size_t) p->cr_aside == N || (g14_gap_ok && p->cr_aside == 0 && in.chunk[N - 1] == '\n'),
                 "conservation (data state): every chunk byte was handed out, or is the set-aside CR, or belongs to a delimiter line");
     else if (p->parser_state == STATE_BOUNDARY)
         VASSERT(g14_app_n == 1 && g14_hi == N, "conservation (candidate state): the unhanded tail of the chunk was stored, once");
